@@ -1,10 +1,134 @@
 import QP.Model.PT
-/-! Property theorems for C02 (an instantiated program plays the voltages the template denotes). -/
+import QP.Proofs.PTTop
+import QP.Proofs.PTReverse
+import QP.Proofs.PTTopW
+import Mathlib.Tactic.Linarith
+/-!
+# C02 — measurement windows of a program are the declared windows in absolute time
+
+Full statement (DESIGN 4/C02): `createProgram … = .ok (some prog) → prog.windows ~ (denoteTop …).windows`
+(permutation) for every template, and every window declared inside its node lies inside `[0, duration]`.
+
+Proved here: `windows_correct_partial` for the stage-1 constructor subset (see `QP.Props.C01`),
+`windows_correct_reversal_partial` for that subset extended by time reversal, `reverse_mirrors_windows` for
+`Loop.reverse_inplace` on every program tree, and the
+"inside" property as preservation theorems on the denotation: sequencing, repetition, own windows of a node
+and time reversal keep windows inside the pulse.  Windows of table / point / multi-channel / arithmetic atoms,
+parallel channels, scalar arithmetic, time reversal (program side: `Loop.reverse_inplace`, PF-03 repaired) and
+the single-waveform collapse are covered by the correspondence + judge only.
+-/
 namespace QP.Props.C02
 open QP.PT
 
-/-- a guarded composite that appends nothing leaves nothing behind (its own windows are dropped) -/
-theorem guardRun_no_node (ms : List Window) : guardRun ms [] = [] := by
-  simp [guardRun]
+/-- **windows (partial)**: the windows of the compiled program are, as a multiset, the windows the template
+denotes — one per execution of the declaring node, at execution start + begin, under the mapped name. -/
+theorem windows_correct_partial {pt : PT} (hs : Stage1 pt) (params : List (String × Rat))
+    (mm : Option (List (MName × Option MName))) (cm : List (Chan × Option Chan)) (prog : Loop) (P : Pulse)
+    (hprog : createProgram pt params mm cm [] = .ok (some prog))
+    (hden : denoteTop pt params mm cm = .ok P) (hpos : prog.allPos) :
+    prog.windows.Perm P.windows :=
+  (createProgram_rel hs params mm cm prog P hprog hden hpos).2.2.1
+
+/-- **windows incl. time reversal (partial)**: for the stage-1 subset extended by `TimeReversalPT` (`Stage1R`),
+without any positivity assumption: the program's windows are the denoted windows — inside a time reversed part
+mirrored about that part's duration —, and if no program is produced nothing is denoted either. -/
+theorem windows_correct_reversal_partial {pt : PT} (hs : Stage1R pt) (params : List (String × Rat))
+    (mm : Option (List (MName × Option MName))) (cm : List (Chan × Option Chan)) (prog? : Option Loop) (P : Pulse)
+    (hprog : createProgram pt params mm cm [] = .ok prog?) (hden : denoteTop pt params mm cm = .ok P) :
+    match prog? with
+    | some prog => prog.windows.Perm P.windows
+    | none => P.windows = [] := by
+  have := createProgram_relW hs params mm cm prog? P hprog hden
+  cases prog? with
+  | some prog => exact this.2
+  | none => exact this.2
+
+/-- all windows of a pulse lie inside `[0, duration]` -/
+def Inside (P : Pulse) : Prop := ∀ w ∈ P.windows, 0 ≤ w.2.1 ∧ w.2.1 + w.2.2 ≤ P.dur
+
+/-- sequencing keeps windows inside -/
+theorem inside_append {p q r : Pulse} (hp : Inside p) (hq : Inside q) (hpd : 0 ≤ p.dur) (hqd : 0 ≤ q.dur)
+    (h : p.append q = .ok r) : Inside r := by
+  unfold Pulse.append at h
+  rcases Bool.eq_false_or_eq_true p.isEmpty with h1 | h1
+  · simp only [h1, if_true, Except.ok.injEq] at h; subst h; exact hq
+  · simp only [h1, Bool.false_eq_true, if_false] at h
+    rcases Bool.eq_false_or_eq_true q.isEmpty with h2 | h2
+    · simp only [h2, if_true, Except.ok.injEq] at h; subst h; exact hp
+    · simp only [h2, Bool.false_eq_true, if_false] at h
+      rcases Bool.eq_false_or_eq_true (sameSet p.chanNames q.chanNames) with h3 | h3
+      · simp only [h3, Bool.not_true, Bool.false_eq_true, if_false, Except.ok.injEq] at h
+        subst h
+        intro w hw
+        simp only [List.mem_append, List.mem_map] at hw
+        rcases hw with hw | ⟨w', hw', rfl⟩
+        · have := hp w hw
+          exact ⟨this.1, by simp only; linarith [this.2]⟩
+        · have := hq w' hw'
+          simp only [shiftW]
+          exact ⟨by linarith [this.1], by linarith [this.2]⟩
+      · simp [h3] at h
+
+/-- the windows a node declares on itself: inside if they are inside the node -/
+theorem inside_withOwn {p : Pulse} (ms : List Window) (hp : Inside p)
+    (hms : ∀ w ∈ ms, 0 ≤ w.2.1 ∧ w.2.1 + w.2.2 ≤ p.dur) : Inside (p.withOwn ms) := by
+  unfold Pulse.withOwn
+  rcases Bool.eq_false_or_eq_true p.isEmpty with he | he
+  · simp only [he, if_true]; exact hp
+  · simp only [he, Bool.false_eq_true, if_false]
+    intro w hw
+    simp only [List.mem_append] at hw
+    rcases hw with hw | hw
+    · exact hms w hw
+    · exact hp w hw
+
+/-- repeating a pulse `n` times keeps the repeated windows inside `[0, n * duration]` -/
+theorem inside_repeat (ws : List Window) (n : Nat) (d : Rat) (hd : 0 ≤ d)
+    (h : ∀ w ∈ ws, 0 ≤ w.2.1 ∧ w.2.1 + w.2.2 ≤ d) :
+    ∀ w ∈ repeatWindows ws n d, 0 ≤ w.2.1 ∧ w.2.1 + w.2.2 ≤ d * n := by
+  intro w hw
+  simp only [repeatWindows, List.mem_flatMap, List.mem_range, List.mem_map] at hw
+  obtain ⟨k, hk, w', hw', rfl⟩ := hw
+  have := h w' hw'
+  have hk1 : (k : Rat) + 1 ≤ n := by exact_mod_cast hk
+  have hk0 : (0 : Rat) ≤ k := by exact_mod_cast Nat.zero_le k
+  simp only [shiftW]
+  constructor
+  · nlinarith [this.1]
+  · nlinarith [this.2]
+
+/-- **time reversal mirrors every window about the duration of the reversed part and keeps it inside** -/
+theorem inside_reversed (D : Rat) (ws : List Window) (h : ∀ w ∈ ws, 0 ≤ w.2.1 ∧ 0 ≤ w.2.2 ∧ w.2.1 + w.2.2 ≤ D) :
+    ∀ w ∈ ws.map (fun (w : Window) => (w.1, D - (w.2.1 + w.2.2), w.2.2)), 0 ≤ w.2.1 ∧ w.2.1 + w.2.2 ≤ D := by
+  intro w hw
+  simp only [List.mem_map] at hw
+  obtain ⟨w', hw', rfl⟩ := hw
+  have := h w' hw'
+  constructor
+  · simp only; linarith [this.2.2]
+  · simp only; linarith [this.1]
+
+/-- reversing twice gives the original windows back -/
+theorem reversed_reversed (D : Rat) (w : Window) :
+    (fun (w : Window) => (w.1, D - (w.2.1 + w.2.2), w.2.2)) ((fun (w : Window) => (w.1, D - (w.2.1 + w.2.2), w.2.2)) w) = w := by
+  obtain ⟨n, b, l⟩ := w
+  simp only [Prod.mk.injEq, true_and, and_true]
+  ring
+
+/-- **program side of time reversal** (`Loop.reverse_inplace`, PF-03 repaired): for *every* program tree the
+windows of the reversed program are the windows of the original, each mirrored about the program's duration —
+repetitions, nesting and windows stored on repeated loops included. -/
+theorem reverse_mirrors_windows (l : Loop) :
+    l.reverseInplace.windows.Perm (l.windows.map (mirrorW l.duration)) := reverse_windows l
+
+/-- … and the reversed program lasts as long as the original -/
+theorem reverse_keeps_duration (l : Loop) : l.reverseInplace.duration = l.duration := reverse_duration l
+
+/-! ## Non-vacuity -/
+
+example : Inside { dur := 2, chans := [], windows := [("m", 0, 1), ("n", 1, 1)] } := by
+  intro w hw
+  simp only [List.mem_cons, List.not_mem_nil, or_false] at hw
+  rcases hw with rfl | rfl <;> norm_num
 
 end QP.Props.C02
